@@ -2,7 +2,7 @@
 """
 Assemble /verif/seeded/<id>/<n>/{patch.diff, demo.py, meta.json} from the
 seeding agents' deliverables (/tmp/seeded_out/<id>/) and the lead's
-verification results (/tmp/seedcheck_results/<id>-<n>.json, written by
+verification results (/tmp/seedcheck_final/<id>-<n>.json, written by
 tools/seedcheck.py).  Only confirmed changes are kept: the patch applies to
 /repo HEAD, the demo exits 0 without and non-zero with the patch, and (when
 run) the repository's baseline tests still pass with it.
@@ -10,7 +10,7 @@ run) the repository's baseline tests still pass with it.
 import os, sys, json, shutil, glob
 OUT = '/verif/seeded'
 rows = []
-for res in sorted(glob.glob('/tmp/seedcheck_results/*.json')):
+for res in sorted(glob.glob('/tmp/seedcheck_final/*.json')):
     base = os.path.basename(res)[:-5]
     pid, n = base.split('-')
     try:
